@@ -262,7 +262,7 @@ class Forcer:
         return results
 
 
-def threads_part(ctx, quick, rnd):
+def threads_part(ctx, quick, rnd, nthreads=2):
     sys.path.insert(0, REPO_SRC)
     from chameleon import PageTemplateFile, _verif
     wd = workdir("cookthr")
@@ -271,20 +271,27 @@ def threads_part(ctx, quick, rnd):
             "---- MODULE MCCook ----\nEXTENDS CookThreads, Json\nMCDev == %s\n"
             "Emit == AllDone => PrintT(ToJson([fver |-> fver, auto |-> auto, fresh |-> fresh0, sched |-> sched, result |-> result,"
             " init |-> [last |-> 0]]))\n====\n" % ("{" + ", ".join('"%s"' % d for d in ctx.known_devs()) + "}"))
-        cfg = ("SPECIFICATION Spec\nCONSTANTS\n Threads = {1, 2}\n Dev <- MCDev\nINVARIANT RenderSeesPublished\nINVARIANT ResultIsSolo\n")
+        cfg = ("SPECIFICATION Spec\nCONSTANTS\n Threads = {%s}\n Dev <- MCDev\nINVARIANT RenderSeesPublished\nINVARIANT ResultIsSolo\n"
+               % ", ".join(str(k) for k in range(1, nthreads + 1)))
         # exhaustive check of the invariants (no dump)
         open(os.path.join(wd, "MCCook.cfg"), "w").write(cfg)
-        r = run_tlc("MCCook", "MCCook.cfg", wd, workers=8, timeout=1800, java_opts=["-Xmx8g"])
-        if r.violation:
-            ctx.violation("TLC: %s violated on CookThreads (two threads, all interleavings)" % r.violation, dict(kind="tlc", tail=r.stdout[-2500:]))
-        elif not r.ok():
-            ctx.fail("CookThreads run failed: %s %s" % (r.error, r.stdout[-800:]))
-        ctx.states += r.distinct
-        ctx.transitions += r.states
-        ctx.parts.append(dict(tag="CookThreads.bfs", states=r.states, distinct=r.distinct, wall_tlc=r.wall))
-        # schedules for forcing: simulation
+        if nthreads == 2:
+            r = run_tlc("MCCook", "MCCook.cfg", wd, workers=8, timeout=1800, java_opts=["-Xmx8g"])
+            if r.violation:
+                ctx.violation("TLC: %s violated on CookThreads (two threads, all interleavings)" % r.violation, dict(kind="tlc", tail=r.stdout[-2500:]))
+            elif not r.ok():
+                ctx.fail("CookThreads run failed: %s %s" % (r.error, r.stdout[-800:]))
+            ctx.states += r.distinct
+            ctx.transitions += r.states
+            ctx.parts.append(dict(tag="CookThreads.bfs", states=r.states, distinct=r.distinct, wall_tlc=r.wall))
+        # schedules for forcing: simulation (with three threads this is also where the invariants are evaluated)
         open(os.path.join(wd, "MCCook.cfg"), "w").write(cfg + "INVARIANT Emit\n")
-        r2 = run_tlc("MCCook", "MCCook.cfg", wd, workers=1, timeout=900, simulate="num=%d" % (150 if quick else 3000), depth=40, seed=ctx.seed)
+        num = (150 if quick else 3000) if nthreads == 2 else (80 if quick else 4000)
+        r2 = run_tlc("MCCook", "MCCook.cfg", wd, workers=1, timeout=1800, simulate="num=%d" % num, depth=60, seed=ctx.seed)
+        if r2.violation:
+            ctx.violation("TLC: %s violated on CookThreads (%d threads, simulated schedules)" % (r2.violation, nthreads), dict(kind="tlc", tail=r2.stdout[-2500:]))
+        ctx.states += r2.distinct
+        ctx.transitions += r2.states
         recs = r2.records
     finally:
         shutil.rmtree(wd, ignore_errors=True)
@@ -327,7 +334,7 @@ def threads_part(ctx, quick, rnd):
                 f = Forcer(lambda: holder["t"])
                 _verif.set_callback(f.callback)
                 try:
-                    res = f.run(sched, 2, lambda: t(x="v"))
+                    res = f.run(sched, nthreads, lambda: t(x="v"))
                 finally:
                     _verif.set_callback(None)
                 n += 1
@@ -429,6 +436,8 @@ def run(ctx):
     quick = ctx.tier == "quick"
     history_part(ctx, quick)
     threads_part(ctx, quick, rnd)
+    # three threads: the state space is too large for BFS here; simulated schedules only (invariants checked along them)
+    threads_part(ctx, quick, rnd, nthreads=3)
     stress_part(ctx, quick)
     for f in ctx.known():
         if f.get("witness"):
